@@ -152,6 +152,10 @@ func (fr *frame) enterLoop(b *ssa.BasicBlock, li *loopInfo, ins []edgeIn) *State
 	if li.mods == nil {
 		li.mods = e.ms.loopMods(fr, li)
 	}
+	// allocations made by earlier iterations: the allocation mark is unknown but not smaller
+	lh := vc.freshConst("hw", SInt)
+	vc.fact(fmt.Sprintf("(>= %s %s)", lh.S, st.hw))
+	st.hw = lh.S
 	fr.applyMods(st, li.mods, fmt.Sprintf("loop %d of %s", li.ordinal, fr.fn))
 	li.hdrVals = map[ssa.Value]Term{}
 	for _, instr := range b.Instrs {
@@ -736,11 +740,21 @@ func (fr *frame) unop(x *ssa.UnOp, st *State) {
 		}
 		fr.checkNil(x.X, st, "load")
 		lv := fr.addrOf(x.X)
+		fr.lastLoadHW = ""
 		v := fr.load(lv, st)
 		// name the loaded value to keep terms small
 		n := vc.freshConst(fr.prefix+"."+x.Name(), v.Sort)
 		vc.fact(eq(n.S, v.S))
 		fr.assumeTypeGuarded(n, x.Type(), st)
+		if fr.lastLoadHW != "" {
+			// every reference stored in a heap version existed when the version was created
+			switch x.Type().Underlying().(type) {
+			case *types.Pointer, *types.Map, *types.Chan:
+				// (only for objects that already existed then: fresh objects returned by
+				// callees are modelled as unallocated cells of the same version)
+				fr.assume(st, fmt.Sprintf("(=> (< (rootref %s) %s) (< %s %s))", fr.lastLoadBase, fr.lastLoadHW, n.S, fr.lastLoadHW))
+			}
+		}
 		fr.vals[x] = n
 	case token.ARROW:
 		et := x.X.Type().Underlying().(*types.Chan).Elem()
